@@ -297,6 +297,12 @@ def run_history(case, alphabet, check_mirror):
         op = gen_op(rng, root, depth, dflt, n, alphabet, structural)
         before = H.snapshot(root)
         rb = H.rank_paths(tensor) if (check_mirror and tensor is not None) else None
+        if op["k"] == "iadd":
+            # `f += scalar` runs over the fiber's shape: record the extent it will use
+            try:
+                op["shape"] = int(locate(root, op["at"]).getShape(all_ranks=False))
+            except Exception:
+                pass
         outcome = apply_op(root, depth, dflt, op)
         after = H.snapshot(root)
         st = {"op": op, "before": before, "after": after, "outcome": outcome}
